@@ -1,9 +1,9 @@
 SPECIFICATION Spec
 CONSTANTS
   Users = {"alice"}
-  Passwords = {"p1", "p2"}
+  Passwords = {"p1", "p2", "p3"}
   Servers = {1, 2}
-  AsBuilt = {}
+  AsBuilt = {"SyncKeepsEvicted"}
 INVARIANT AcceptedOnlyWhenAllowed
 PROPERTIES DirectoryIsFinal RejectEvicts
 CHECK_DEADLOCK FALSE
